@@ -197,20 +197,21 @@ NARROW = {"uint8": (0, 255), "uint16": (0, 65535), "int16": (-32768, 32767), "in
           "uint32": (0, 2 ** 32 - 1), "int8": (-128, 127), "float32": None}
 
 
-def narrow_dtypes(rng, c, positive=False, wide=0.5):
+def narrow_dtypes(rng, c, positive=False, wide=0.5, pairs=True, floats=True):
     """Criteria stored in narrow / unsigned numpy types (what a caller gets from an image, a sensor file or a
     compact table).  The values are made to fit exactly; half of the time some of them sit near the ends of the type's
     range, so that differences and sums of two values no longer fit the type itself."""
     mtx = c["matrix"]
     m = len(c["weights"])
-    one = rng.random() < 0.4 and rng.choice(sorted(NARROW))
+    names = sorted(k for k in NARROW if floats or k != "float32")
+    one = rng.random() < 0.4 and rng.choice(names)
     pair = None
-    if not one and m >= 2 and rng.random() < 0.5:
+    if pairs and not one and m >= 2 and rng.random() < 0.5:
         # two widths of one kind side by side, the narrower one first
         pair = rng.choice([("float32", "float64"), ("int32", "int64"), ("int16", "int64"), ("uint8", "uint32")])
     dts = []
     for j in range(m):
-        t = one or rng.choice(sorted(NARROW) + ["int64", "float64"])
+        t = one or rng.choice(names + ["int64", "float64"])
         if pair:
             t = pair[0] if j == 0 else (pair[1] if j == m - 1 else rng.choice(pair))
         dts.append(t)
